@@ -13,25 +13,47 @@ Definition C01_statement (unit_ : Type) (wf : unit_ -> Prop) (render_unit : unit
   exists ds, analyse name (render_unit u) = Ok ds /\ (forall d, In d ds -> d_level d = s "Notice")
              /\ status ds = s "OK" /\ exit_code [mkfile name ds] = 0.
 
-(* What IS proved: for the code set K = {INVALID_HEADER} + HEADER_PROT_* + the lexical codes (every code emitted by
-   lexer.py), over the models that exist:
-   - K is tied to the source: by Gen/Emitters.v (every static emission site of /repo, regenerated on every run) only
-     check_header.py can emit INVALID_HEADER, only check_preprocessor_protection.py a HEADER_PROT_* code, only lexer.py a
-     lexical code, and no emission site has an opaque code;
-   - (a) header (C13), (b) guard (C14): given-trace theorems, for all field values / all following statements / all balanced bodies;
-   - (c) lexer: a conforming statement line - a list, of ANY length, of identifiers (any letter or _ first except l L u U,
-     then any identifier characters), single spaces, one-character operators , ; ~ + - * / < > ^ & | ! = (the extendable ones
-     followed by a space or an operand), brackets, and the 118 listed atoms (constants of every family of Spec/CConst inside
-     their guards, keywords, the operators of two and three characters and %, names starting with l / u) each followed by one
-     of ` ; ) , ]` newline or the end - is cut into exactly one token per lexeme and NO diagnostic is recorded;
-   - (d) verdict / exit (C04).
-   Missing for the full statement, and only TESTED by tools/harness/c01.py: the silence of the 37 other checks; for (c): `.` `->`
-   `?` `:` `#`, constants outside the list (the bounded families of C11 are covered there by evaluation with the fixed
-   delimiters of Spec/CConst.delims), tabs / newlines inside a line, comments; that the engine cuts a rendered unit into the
-   statement trace the (a)/(b) theorems are about (the given-trace hypothesis, tested by c13.py / c14.py). *)
+(* What IS proved (C01_partial_K, one conjunction; every part is stated over a model regenerated from / tied to the source):
+   1. the translated checks emit NOTHING on conforming statements (C01_checks_silent_statement, Proofs/ConformingChecks.v,
+      Proofs/ConformingCounters.v) - theorems about the generated functions of Gen/RuleChecks.v, Gen/MoreChecks.v, Gen/Counters.v,
+      Gen/ScopeOps.v, for ANY remaining token list / statement length / context view under the stated conforming conditions
+      (K = token kinds, tied to the text by conforming_text_kinds; P = columns, C09 / C03; V = the view at the statement, given):
+        whole checks (6): CheckTernary (K), CheckLabel (K), CheckLineLen (P), CheckManyInstructions (P),
+                          CheckEmptyLine (V, both on statements and on empty lines), CheckFunctionsCount (trace model);
+        partial (6):      CheckLineIndent (all lines but the `{` line), CheckExpressionStatement (statements without `return`),
+                          CheckUtypeDeclaration (translated part, in headers), CheckBrace (TOO_MANY_LINES at <= 25 lines),
+                          CheckVariableDeclaration (TOO_MANY_VARS_FUNC at <= 5), CheckFuncDeclaration (TOO_MANY_ARGS at <= 4);
+   2. the code set {INVALID_HEADER} + HEADER_PROT_* + the lexical codes, as before: emitter ties (Gen/Emitters.v), (a) header
+      (C13: CheckHeader), (b) guard (C14: CheckPreprocessorProtection), (c) lexer: a conforming TEXT - any number of lines of
+      tabs, identifiers (any letter or _ first except l L u U), single spaces, one-character operators, brackets, the listed atoms,
+      line ends - is cut into exactly one token per lexeme, of the kind lx_type says, and NO diagnostic is recorded,
+      (d) verdict / exit (C04).
+   Checks proved silent as a whole: 8 of 39 (the six above, CheckHeader, CheckPreprocessorProtection).
+   TESTED ONLY by tools/harness/c01.py (31 checks; the six marked * have the partial theorems above):
+     CheckAssignation CheckAssignationIndent CheckBlockStart CheckBrace* CheckComment CheckCommentLineLen CheckControlStatement
+     CheckDeclaration CheckEnumVarDecl CheckExpressionStatement* CheckFuncArgumentsName CheckFuncDeclaration* CheckFuncSpacing
+     CheckGeneralSpacing CheckGlobalNaming CheckIdentifierName CheckInHeader CheckLineCount CheckLineIndent* CheckNestLineIndent
+     CheckNewlineIndent CheckOperatorsSpacing CheckPreprocessorDefine CheckPreprocessorInclude CheckPreprocessorIndent
+     CheckPrototypeIndent CheckSpacing CheckStructNaming CheckUtypeDeclaration* CheckVariableDeclaration* CheckVariableIndent
+   (CheckSpacing and CheckControlStatement are translated - Gen/RuleChecks.v, Gen/MoreChecks.v - but their silence on conforming
+   statements is not proved here: the spacing loop and the parenthesis scan need an invariant over the whole statement.)
+   Also only tested: that the engine cuts a rendered unit into statements with the views the V hypotheses describe; for (c):
+   `.` `->` `?` `:` `#`, constants outside the atom list, comments. *)
 Theorem C01_partial_K : C01_partial_K_statement.
 Proof. exact partial_K. Qed.
 Print Assumptions C01_partial_K.
+
+(* the silence of the translated checks on its own *)
+Theorem C01_checks_silent : C01_checks_silent_statement.
+Proof. exact checks_silent. Qed.
+Print Assumptions C01_checks_silent.
+
+(* (c), with the token kinds: one token per lexeme, of the kind lx_type says, for texts of any number of lines *)
+Theorem C01_conforming_text_tokens_partial : forall ls, chain ls = true ->
+  exists items xf, lex nouni nouni (render ls) = Ok (items, xf) /\ errs xf = [] /\ rest xf = [] /\
+                   forallb is_tok items = true /\ map t_type (tokens_of items) = map lx_type ls.
+Proof. exact conforming_text_tokens. Qed.
+Print Assumptions C01_conforming_text_tokens_partial.
 
 (* (c) on its own *)
 Theorem C01_conforming_line_lexes_silently_partial : forall ls, chain ls = true ->
@@ -63,6 +85,8 @@ Proof. exact accepted_K1. Qed.
 Print Assumptions C01_accepted_K1.
 
 (* non-vacuity *)
+Example C01_example_text : chain ex_text3 = true /\ kinds_ok ex_text3 = true.
+Proof. split; [exact (proj1 ex_text_ok)|exact (proj1 (proj2 ex_text_ok))]. Qed.
 Example C01_example :
   chain ex_line1 = true /\ render ex_line1 = s "a = -b + fn(c, 0x1F) * 'a';" /\
   chain ex_line2 = true /\ render ex_line2 = s "while (i < len && !p[i])".
